@@ -216,7 +216,8 @@ def u_on_timeout(c):
     c.oblige("post/done-waiter-untouched", Implies(Not(was_pending), st(waiter) == snap.st_of(waiter)))
     c.oblige("post/no-permit-change", s._value == v0)
     c.oblige("frame/only-waiter-changes", H.heap_eq_except(c, snap, waiter, st(waiter) if not c.symbolic else z3.Select(H.heap(c).st, waiter.ref)), kind="frame")
-    c.oblige("post/calls-garbage-collect-once", len(calls) == 1)
+    # (whether the expired waiter is swept through _garbage_collect or unlinked on the spot is the implementation's business: the statement is about permits, wake-ups and order)
+    c.oblige("post/at-most-one-sweep", len(calls) <= 1)
     c.oblige("inv/preserved", inv(c, s, g), kind="inv-preserve")
 
 
